@@ -83,6 +83,29 @@ impl Probe for TimingProbe {
         if l.ends.disconnect_reason(dir).is_some() {
             return Ok(());
         }
+        // (a) by the harness's own bookkeeping: an item that was transmitted and for which no acknowledgement
+        // of a carrying packet was processed is unacknowledged, whatever the library's tables say
+        for (it, prev) in self.last_tx.iter() {
+            if it.0 != dir || self.acked_at.contains_key(it) || *prev == now {
+                continue;
+            }
+            let r = l.cfg.chan(dir, it.1).resend_ms;
+            if now - prev >= r {
+                return Err(Violation::new(
+                    "C15/not-retransmitted-when-due",
+                    format!(
+                        "endpoint {} channel {} message id {} {}: last transmitted at {} ms, no acknowledgement of a packet carrying it was ever processed, now {} ms, resend_time {} ms, budget ample — not in this flush",
+                        dir,
+                        it.1,
+                        it.2,
+                        if it.3 == usize::MAX { "(small)".to_string() } else { format!("slice {}", it.3) },
+                        prev,
+                        now,
+                        r
+                    ),
+                ));
+            }
+        }
         let Some(snap) = l.ends.snapshot(dir) else { return Ok(()) };
         let nowd = snap.current_time;
         for c in &snap.send_reliable {
@@ -192,6 +215,28 @@ pub fn scenarios(tier: Tier) -> Vec<LinkScenario<fn() -> Box<dyn Probe>>> {
             cfg.drains = vec![Drain::End];
             cfg.fates = vec![Fate::Ok, Fate::Drop, Fate::Dup, Fate::Delay1, Fate::Delay2];
             cfg.script = lens.iter().map(|&len| Send::at(0, dir, ch, len)).collect();
+            out.push(LinkScenario {
+                cfg,
+                probe: (|| Box::new(TimingProbe::new()) as Box<dyn Probe>) as fn() -> Box<dyn Probe>,
+            });
+        }
+    }
+    // lossy baseline: the last slice of a 3-slice message is lost every time during the horizon, so partially
+    // acknowledged messages with retransmitted (twice acknowledged) slices appear within one or two deviations
+    for dir in 0..2usize {
+        for (tname, dts) in [("dt=R/3", vec![r / 3]), ("dt=R/2", vec![r / 2]), ("dt=R", vec![r])] {
+            let mut cfg = LinkCfg::base(&format!("lossy: slice 2 of 2401 always lost, {} dir{}", tname, dir), chans(), chans());
+            let mut d = dts.clone();
+            while d.len() < 24 {
+                d.push(dts[0]);
+            }
+            cfg.dt_ms = d;
+            cfg.horizon = 8;
+            cfg.tail = 16;
+            cfg.base_drop_slice_idx = Some(2);
+            cfg.drains = vec![Drain::End];
+            cfg.fates = vec![Fate::Ok, Fate::Drop, Fate::Dup, Fate::Delay1, Fate::Delay2];
+            cfg.script = vec![Send::at(0, dir, 0, 2401)];
             out.push(LinkScenario {
                 cfg,
                 probe: (|| Box::new(TimingProbe::new()) as Box<dyn Probe>) as fn() -> Box<dyn Probe>,
